@@ -47,6 +47,8 @@ func fiContents() map[int][]byte {
 		out[id] = b
 	}
 	out[9] = []byte("this is not a font file at all, just some bytes\n")
+	// a collection whose faces have different coverage (several footprints in one file entry)
+	out[4] = buildTTC([][]byte{synthFontBytes([]rune{'a', 'b', 'c', 0x3B1, 0x3B2, 0x4E00}), synthFontBytes([]rune{'x', 'y', 0x2200, 0x2211, 0x4E00}), synthFontBytes([]rune{0x5D0})})
 	return out
 }
 
